@@ -146,6 +146,8 @@ struct ShimRunInfo {
     void PFX##load_vector(void*, const void* test_case_bytes);                                                         \
     int PFX##vector_size();                                                                                            \
     void PFX##post_case(void*);                                                                                        \
+    void PFX##pseudo_set(void*, int word, uint16_t value);                                                             \
+    uint16_t PFX##pseudo_get(void*, int word);                                                                         \
     }
 
 SHIM_API(sut_)
